@@ -143,4 +143,63 @@ mod verif_cex_checker {
             let _ = std::fs::remove_file(&p);
         }
     }
+    // ---- C15: a free-list page that names some ids TWICE.  The pinned release writes such lists (it frees the pages of a nested
+    // bucket twice when the bucket and then its parent are deleted in one transaction; the list is sorted, the repeats are
+    // neighbours).  Such files open with the right contents and keep accepting commits: the loader collects the ids in a set
+    #[test]
+    fn cex_free_list_with_repeated_ids_is_loaded() {
+        use crate::Data;
+        for &ps in &[1024u64, 4096] {
+            let p = std::env::temp_dir().join(format!("jammdb-cex-repeats-{}-{}.db", ps, std::process::id()));
+            let _ = std::fs::remove_file(&p);
+            let read = |db: &DB| -> Vec<(Vec<u8>, Vec<u8>)> {
+                let tx = db.tx(false).unwrap();
+                let b = tx.get_bucket("b").unwrap();
+                b.cursor().map(|d| match d { Data::KeyValue(kv) => (kv.key().to_vec(), kv.value().to_vec()), Data::Bucket(n) => (n.name().to_vec(), b"<bucket>".to_vec()) }).collect()
+            };
+            let (before, fl);
+            {
+                let db: DB = OpenOptions::new().pagesize(ps).open(&p).unwrap();
+                { let tx = db.tx(true).unwrap(); let b = tx.create_bucket("b").unwrap(); for i in 0..150u32 { b.put(format!("key{:05}", i), vec![b'v'; 90]).unwrap(); } tx.commit().unwrap(); }
+                { let tx = db.tx(true).unwrap(); let b = tx.get_bucket("b").unwrap(); for i in 0..100u32 { b.delete(format!("key{:05}", i)).unwrap(); } tx.commit().unwrap(); }
+                { let tx = db.tx(true).unwrap(); tx.get_bucket("b").unwrap().put("one-more", "z").unwrap(); tx.commit().unwrap(); }
+                before = read(&db);
+                fl = db.inner.meta().unwrap().freelist_page;
+            }
+            let mut bytes = std::fs::read(&p).unwrap();
+            let flo = fl as usize * ps as usize;
+            let count = rd64(&bytes, flo + 16) as usize;
+            let ids: Vec<u64> = (0..count).map(|i| rd64(&bytes, flo + 32 + i * 8)).collect();
+            // every second id is named twice, as far as the page has room
+            let room = (ps as usize - 32) / 8;
+            let mut out: Vec<u64> = Vec::new();
+            for (i, id) in ids.iter().enumerate() { out.push(*id); if i % 2 == 1 && out.len() + (count - i - 1) < room { out.push(*id); } }
+            if out.len() == count || count < 2 { println!("cex repeats: no room to repeat an id at page size {} (free list of {} ids), skipped", ps, count); let _ = std::fs::remove_file(&p); continue; }
+            for (i, id) in out.iter().enumerate() { wr64(&mut bytes, flo + 32 + i * 8, *id); }
+            wr64(&mut bytes, flo + 16, out.len() as u64);
+            std::fs::write(&p, &bytes).unwrap();
+            let what = format!("history: healthy file at page size {} with a free list of {} ids {:?}; the free-list page is rewritten with every second id named twice (sorted, {} entries), as the pinned release writes after deleting a nested bucket and then its parent", ps, count, ids, out.len());
+            let r = std::panic::catch_unwind(|| {
+                let now;
+                {
+                    let db = OpenOptions::new().pagesize(ps).open(&p).map_err(|e| format!("open fails: {:?}", e))?;
+                    now = read(&db);
+                    for k in 0..3u32 { let tx = db.tx(true).map_err(|e| format!("{:?}", e))?; tx.get_bucket("b").map_err(|e| format!("{:?}", e))?.put(format!("after{}", k), vec![b'a'; 300]).map_err(|e| format!("{:?}", e))?; tx.commit().map_err(|e| format!("a further commit fails: {:?}", e))?; }
+                    db.check().map_err(|e| format!("DB::check() fails after further commits: {:?}", e))?;
+                }
+                let db = OpenOptions::new().pagesize(ps).open(&p).map_err(|e| format!("reopen fails: {:?}", e))?;
+                db.check().map_err(|e| format!("DB::check() fails after reopening: {:?}", e))?;
+                let later = read(&db);
+                if later.len() != now.len() + 3 { return Err(format!("after three more commits and a reopen the bucket shows {} entries, expected {}", later.len(), now.len() + 3)); }
+                Ok::<_, String>(now)
+            });
+            match r {
+                Ok(Ok(now)) if now == before => {}
+                Ok(Ok(now)) => { println!("CEX C15 (repeated ids in the free list): {}: the contents differ ({} entries before, {} now)", what, before.len(), now.len()); panic!("repeats-contents"); }
+                Ok(Err(e)) => { println!("CEX C15 (repeated ids in the free list): {}: {}", what, e); panic!("repeats-err"); }
+                Err(_) => { println!("CEX C15 (repeated ids in the free list): {}: opening or using the file panics", what); panic!("repeats-panic"); }
+            }
+            let _ = std::fs::remove_file(&p);
+        }
+    }
 }
